@@ -626,6 +626,11 @@ func (bh *blipHandler) sendBatchOfChanges(sender *blip.Sender, changeArray [][]a
 			return err
 		}
 
+		if base.VerifOn {
+			if cc, ccErr := bh.collections.get(bh.collectionIdx); ccErr == nil && cc.sgr2PushAddExpectedSeqsCallback != nil {
+				base.VerifEmit(verifObj(bh.BlipSyncContext), "Offered", "coll", verifCollIdx(bh.collectionIdx), "batch", verifBatchID(changeArray), "seqs", verifChangeSeqs(changeArray))
+			}
+		}
 		sendTime := time.Now()
 		if !bh.sendBLIPMessage(sender, outrq) {
 			return ErrClosedBLIPSender
